@@ -38,8 +38,9 @@ def make_vals(kind, vals, length):
         arr = np.asarray([0 if v is None else v for v in vals], dtype="int32")
         exp = [0 if v is None else int(v) for v in vals]
     else:
-        arr = np.asarray([("" if v is None else f"s{v}") for v in vals], dtype=str)
-        exp = [("" if v is None else f"s{v}") for v in vals]
+        # (strings of very different lengths: a later value can be longer than anything stored under the name)
+        exp = [("" if v is None else f"s{v}" if v % 4 else "t" * (abs(v) + 1)) for v in vals]
+        arr = np.asarray(exp, dtype=str)
     return arr, exp
 
 
